@@ -579,6 +579,10 @@ class Producer(object):
                 # associated failure
                 for p, f in failed_payloads_with_errs:
                     t_and_p = TopicAndPartition(p.topic, p.partition)
+                    if not isinstance(f, Failure):
+                        # An error code in the response arrives here as a bare
+                        # exception; callback(exception) would report success.
+                        f = Failure(f)
                     _deliver_result(deferredsByTopicPart[t_and_p], f)
                 return
             # Retries remain!  Schedule one...
